@@ -2605,14 +2605,19 @@ class op(object):
             mmap[i] = constraints[0].multiplier[islc[i]]
 
         for i in  pwl_ineqs:
+            # the pieces of i can have different lengths: a piece longer 
+            # than i contributes the sum of its multipliers, the single 
+            # multiplier of a scalar piece of a vector constraint is 
+            # divided over the components of i
             mmap[i] = _function()
             for c in pwl_ineqs[i]:
-                mmap[i] = mmap[i] + constraints[0].multiplier[islc[c]]
-            if len(i) == 1 != len(mmap[i]):
-                mmap[i] = sum(mmap[i])
+                mc = constraints[0].multiplier[islc[c]]
+                if len(i) == 1 and len(c) > 1: mc = sum(mc)
+                elif len(i) > 1 and len(c) == 1: mc = (1.0/len(i)) * mc
+                mmap[i] = mmap[i] + mc
 
         for e in  equalities:
-            mmap[e] = constraints[1].multiplier[eslc[e]]
+            mmap[e] = constraints[-1].multiplier[eslc[e]]
         return (op(cost, constraints), vmap, mmap)
 
 
